@@ -292,6 +292,18 @@ def eqnode(x='D', y='D'):
   return vfx.rec('eqnode', locals())
 
 
+def _make_scaler(k):
+  def scaler(x='D', y='D'):
+    return vfx.rec(f'scaler{k}', dict(x=x, y=y, k=k))
+  scaler.__canon_tag__ = k
+  return scaler
+
+
+# two functions made by one factory: same code object, different behaviour
+scaler2 = _make_scaler(2)
+scaler3 = _make_scaler(3)
+
+
 def eqnode_b(x='D', y='D'):
   return vfx.rec('eqnode_b', locals())
 
